@@ -5,6 +5,7 @@ open C17Spec
 open C17Model
 open C17TypedModel
 open C17HistModel
+open C17TieModel
 open Base
 
 let parse_msg (s : string) : msg =
@@ -139,22 +140,30 @@ let parse_hevc_par (par : string) : hevc_par =
       hp_au_len1 = n_of_hex e; hp_dpb_len1 = n_of_hex f; hp_du_len1 = n_of_hex g; hp_inc_len1 = n_of_hex h }
   | _ -> failwith "bad hevc par"
 
+(* the bit-list decoder and the machine-level decoder (C17TieModel) must agree; a disagreement is
+   reported as a decode mismatch of its own *)
+let both id ((c1, s1) : string * string) ((c2, s2) : string * string) : string * string =
+  if c1 = c2 && s1 = s2 then (c1, s1) else ("bitlist=" ^ c1 ^ ":" ^ s1 ^ " machine=" ^ c2, s2 ^ " [" ^ id ^ "]")
+
 let typed (fields : string list) : bool =
   match fields with
   | ["T136"; id; cs; wclass; size; payload; dclass; dstr] ->
     let cl = parse_clocks cs in
     let pl = tc_payload cl in
     typed_line id wclass size payload dclass dstr (tc_size cl) pl (tc_payload_spec cl)
-      (res_string clocks_string (tc_decode pl)); true
+      (both id (res_string clocks_string (tc_decode pl)) (res_string clocks_string (tc_decode_go pl))); true
   | ["D136"; id; payload; dclass; dstr] ->
-    dec_line id dclass dstr (res_string clocks_string (tc_decode (bytes_of_hex payload))); true
+    let pl = bytes_of_hex payload in
+    dec_line id dclass dstr (both id (res_string clocks_string (tc_decode pl)) (res_string clocks_string (tc_decode_go pl))); true
   | ["T1"; id; ms; wclass; size; payload; dclass; dstr] ->
     let m = parse_pt ms in
     let pl = pt_payload m in
     typed_line id wclass size payload dclass dstr (pt_size m) pl (pt_payload_spec m)
-      (res_string pt_string (pt_decode m.p_hrd m.p_tolen pl)); true
+      (both id (res_string pt_string (pt_decode m.p_hrd m.p_tolen pl)) (res_string pt_string (pt_decode_go m.p_hrd m.p_tolen pl))); true
   | ["D1"; id; hrd; tolen; payload; dclass; dstr] ->
-    dec_line id dclass dstr (res_string pt_string (pt_decode (parse_hrd hrd) (n_of_hex tolen) (bytes_of_hex payload))); true
+    let pl = bytes_of_hex payload in
+    dec_line id dclass dstr (both id (res_string pt_string (pt_decode (parse_hrd hrd) (n_of_hex tolen) pl))
+                               (res_string pt_string (pt_decode_go (parse_hrd hrd) (n_of_hex tolen) pl))); true
   | ["T137"; id; ms; wclass; size; payload; dclass; dstr] ->
     let m = parse_mdcv ms in
     let pl = mdcv_payload m in
@@ -190,7 +199,11 @@ let typed (fields : string list) : bool =
         | TPicTiming m -> pt_string m
         | TMdcv m -> mdcv_string m
         | TCll c -> hex_of_n c.cl_max ^ "," ^ hex_of_n c.cl_avg) in
-    let (mdc, mds) = res_string str mdec in
+    let mgo = (match t with
+        | TTimeCode _ -> (match tc_decode_go mpl with Ok cs -> Ok (TTimeCode cs) | Err -> Err | Panic -> Panic | OutOfFuel -> OutOfFuel)
+        | TPicTiming m -> (match pt_decode_go m.p_hrd m.p_tolen mpl with Ok m' -> Ok (TPicTiming m') | Err -> Err | Panic -> Panic | OutOfFuel -> OutOfFuel)
+        | _ -> mdec) in
+    let (mdc, mds) = both id (res_string str mdec) (res_string str mgo) in
     if wclass <> "ok" then Printf.printf "MISMATCH %s Payload()/WriteSEIMessages class=%s (model: ok)\n" id wclass
     else if hex_of_n msize <> size then Printf.printf "MISMATCH %s size model=%s (from the final exported fields)\n" id (hex_of_n msize)
     else if hex_of_bytes mpl <> payload then Printf.printf "MISMATCH %s payload model=%s (from the final exported fields)\n" id (hex_of_bytes mpl)
